@@ -40,7 +40,7 @@ REGISTRY = dict(
 
 FUEL = 3000
 POOL_OLD = int(os.environ.get("C01_POOL_OLD", "0"))   # 1: compare with the model of the pool lookup before the repair (debugging aid)
-CLASSES = ["known_marshal_nat", "known_nat_cast", "known_enum_arith", "known_quote_ambiguity", "known_float_unify", "known_enum_guard"]
+CLASSES = ["known_marshal_nat", "known_nat_cast", "known_enum_arith", "known_quote_ambiguity", "known_float_unify", "known_enum_guard", "known_expr_guard_cast"]
 CLS_NAME = {1: "Nat", 2: "Int", 3: "Float", 4: "Str", 5: "Bool", 6: "List"}
 
 # witnesses that are always run (signed zeros, Int/Nat pool pair, naturals at 2**31 / 2**63, mutate operator in a dead branch)
